@@ -34,8 +34,29 @@ func main() {
 	noReplay := flag.Bool("noreplay", false, "do not replay counterexamples natively")
 	replayDir := flag.String("replays", "/verif/replays", "replay output directory")
 	verbose := flag.Bool("v", false, "verbose")
+	replayFile := flag.String("replayfile", "", "replay one counterexample file natively and exit")
 	flag.Parse()
 	t0 := time.Now()
+	if *replayFile != "" {
+		b, err := os.ReadFile(*replayFile)
+		if err != nil {
+			fmt.Println("INCONCLUSIVE", err)
+			os.Exit(2)
+		}
+		var rp struct {
+			Harness string `json:"harness"`
+			Pkg     string `json:"pkg"`
+			Tag     string `json:"tag"`
+		}
+		json.Unmarshal(b, &rp)
+		res := replayNative(*repo, *hdir, &Harness{Name: rp.Harness, Pkg: rp.Pkg}, *replayFile)
+		fmt.Printf("replay of %s (%s): %s\n", *replayFile, rp.Tag, res)
+		if res == "reproduced" {
+			fmt.Printf("VIOLATION property=%s replay=%s\n", *prop, *replayFile)
+			os.Exit(1)
+		}
+		os.Exit(0)
+	}
 
 	hs, err := loadHarnesses(filepath.Join(*hdir, "harnesses.json"))
 	if err != nil {
@@ -120,12 +141,21 @@ func main() {
 			fmt.Fprintf(os.Stderr, "== %s: paths=%d %v queries(unsat/sat/unk)=%v solve=%v wall=%v instr=%d reached=%v\n",
 				r.H.Name, len(r.Paths), r.Status, r.Queries, r.SolveTime.Round(time.Millisecond), r.Wall.Round(time.Millisecond), r.Instr, sortedKeys(r.Reached))
 		}
+		seenP := map[string]bool{}
 		for _, p := range r.Problems {
-			fmt.Printf("INCONCLUSIVE harness=%s %s\n", r.H.Name, p)
+			if !seenP[p] {
+				fmt.Printf("INCONCLUSIVE harness=%s %s\n", r.H.Name, p)
+			}
+			seenP[p] = true
 			inconclusive = true
 		}
 		for vi := range r.Violations {
 			v := &r.Violations[vi]
+			// assertion tags start with the property they belong to ("C05: ..."); a harness shared by
+			// several properties reports to each check only its own assertions (panics go to all)
+			if *prop != "" && len(v.Tag) > 4 && v.Tag[0] == 'C' && v.Tag[3] == ':' && v.Tag[:3] != *prop {
+				continue
+			}
 			if v.Known != "" {
 				if what, ok := isKnown(*prop, v.Known); ok {
 					if !knownPrinted[v.Known] {
